@@ -55,6 +55,10 @@ def check_loss(name, L, P, batch, case):
     rj = jax.jit(lambda p, b: L.evaluate(p, b))(P, batch)
     if not close_tree(r1, rj):
         fails.append(f"{name}: jit result differs from the eager one")
+    # the loss object itself as a (flattened and rebuilt) argument of the compiled function, as jinns.solve passes it
+    rl = eqx.filter_jit(lambda l, p, b: l.evaluate(p, b))(L, P, batch)
+    if not close_tree(r1, rl):
+        fails.append(f"{name}: the result with the loss object passed through jit as an argument differs from the eager one")
     (v, aux), _g = jax.value_and_grad(lambda p: L.evaluate(p, batch), has_aux=True)(P)
     if not close_tree(r1, (v, aux)):
         fails.append(f"{name}: value_and_grad primal differs from the eager result")
